@@ -6,7 +6,10 @@ from xml.sax.saxutils import escape
 
 from bs4 import BeautifulSoup
 
-from .base import DFXPWriter, DFXP_DEFAULT_REGION
+from .base import (
+    DFXPWriter, DFXP_DEFAULT_REGION, AttributeEscapingFormatter,
+    _quote_attribute,
+)
 from ..base import BaseWriter, CaptionNode, merge_concurrent_captions
 
 LEGACY_DFXP_BASE_MARKUP = '''
@@ -139,7 +142,7 @@ class LegacyDFXPWriter(BaseWriter):
 
             body.append(div)
 
-        caption_content = dfxp.prettify(formatter=None)
+        caption_content = dfxp.prettify(formatter=AttributeEscapingFormatter())
         return caption_content
 
     # force the DFXP to only have one language, trying to match on "force"
@@ -211,7 +214,7 @@ class LegacyDFXPWriter(BaseWriter):
 
             content_with_style = self._recreate_style(node.content, dfxp)
             for style, value in list(content_with_style.items()):
-                styles += f' {style}="{value}"'
+                styles += f' {style}="{_quote_attribute(value)}"'
 
             if styles:
                 if self.open_span:
